@@ -401,6 +401,7 @@ static void run_case(long id, uint64_t seed)
 	for (i = 0; i < np; i++)
 		pthread_join(posters[i].th, NULL);
 	mt_join_loops();
+	mt_check_thread_fds(g_method);
 
 	S.cases++;
 	S.posts += total_posts; S.entries += total_entries; S.sig_posts += sig_posts; S.thread_posts += thread_posts;
